@@ -16,6 +16,8 @@ import (
 	"verifharness/gen"
 	"verifharness/world"
 
+	"pgregory.net/rapid"
+
 	"github.com/gr33nbl00d/caddy-revocation-validator/core"
 	"github.com/gr33nbl00d/caddy-revocation-validator/crl/crlreader"
 	"github.com/gr33nbl00d/caddy-revocation-validator/crl/crlstore"
@@ -364,5 +366,41 @@ func TestMain(m *testing.M) {
 	os.Exit(code)
 }
 
+// genCase draws a size pair and the shape of the list instead of taking them from the fixed table: the sizes of
+// the fixed pairs are round numbers, so a buffer that grows only past some threshold between them, or only for a
+// combination of options the table does not contain, would go unseen. The limits are the same as for the fixed pairs.
+func genCase(t *rapid.T) Case {
+	c := Case{Path: rapid.SampledFrom([]string{"reader", "reader", "store-fault", "whole-disk"}).Draw(t, "path")}
+	c.PEM = rapid.Bool().Draw(t, "pem")
+	c.Exts = rapid.Bool().Draw(t, "exts")
+	switch c.Path {
+	case "reader", "store-fault":
+		c.N1 = rapid.IntRange(8000, 60000).Draw(t, "n1")
+		c.N2 = c.N1*rapid.IntRange(5, 12).Draw(t, "factor") + rapid.IntRange(0, 4999).Draw(t, "odd")
+		c.CertIssuer = rapid.Bool().Draw(t, "certIssuer")
+		if !c.CertIssuer {
+			c.Distinct = rapid.Bool().Draw(t, "distinct")
+		}
+		if c.Path == "store-fault" {
+			c.FailAfter = rapid.IntRange(1, 6000).Draw(t, "failAfter")
+			c.CertIssuer, c.Distinct = false, false
+		}
+	default:
+		c.N1 = rapid.IntRange(100000, 200000).Draw(t, "n1")
+		c.N2 = c.N1*rapid.IntRange(3, 4).Draw(t, "factor") + rapid.IntRange(0, 4999).Draw(t, "odd")
+		c.Via = rapid.SampledFrom([]string{"file", "http"}).Draw(t, "via")
+		c.Late = rapid.Bool().Draw(t, "late")
+		c.DebugLog = rapid.Bool().Draw(t, "debugLog")
+		c.Refresh = rapid.Bool().Draw(t, "refresh")
+		if rapid.Bool().Draw(t, "entryExt") {
+			c.Exts = true
+			c.Distinct = rapid.Bool().Draw(t, "distinct")
+			c.CertIssuer = !c.Distinct
+		}
+	}
+	return c
+}
+
 func TestSizes(t *testing.T)  { ev.Enumerate(t, spec, cases(), false) }
+func TestDrawn(t *testing.T)  { s := spec; s.Gen = genCase; ev.Check(t, s) }
 func TestReplay(t *testing.T) { ev.Replay(t, spec) }
